@@ -28,6 +28,7 @@ import (
 
 	"com.tuntun.rangers/node/src/common"
 	"com.tuntun.rangers/node/src/core"
+	"com.tuntun.rangers/node/src/executor"
 	"com.tuntun.rangers/node/src/middleware"
 	"com.tuntun.rangers/node/src/middleware/types"
 	"com.tuntun.rangers/node/src/storage/account"
@@ -56,6 +57,7 @@ type kase struct {
 	RBal   string     `json:"rbal"`           // balance of recipients B and D
 	CBal   string     `json:"cbal"`           // balance of every contract
 	XBal   string     `json:"xbal,omitempty"` // balance pre-loaded at the first CREATE address of A
+	DBal   string     `json:"dbal,omitempty"` // balance of the second ("dust") sender D2
 	Prog   string     `json:"prog,omitempty"` // program label installed at C0
 	Blocks [][]txSpec `json:"blocks"`         // consecutive blocks, executed on one state
 	Settle bool       `json:"settle"`         // append an empty block at the refund height
@@ -96,6 +98,7 @@ var (
 		"CR": common.HexToAddress("0x00000000000000000000000000000000c0de0004"), // REVERT
 		"CC": common.HexToAddress("0x00000000000000000000000000000000c0de0005"), // selfdestruct(caller)
 		"N":  common.HexToAddress("0x000000000000000000000000000000000e0e0001"), // never touched before
+		"D2": common.HexToAddress("0x00000000000000000000000000000000000d0002"), // second sender, usually almost empty
 		"P2": common.HexToAddress("0x0000000000000000000000000000000000000002"), // precompile sha256
 	}
 	helperProg = map[string]string{"CP": "stop", "CS": "sdself", "CO": "sdother", "CR": "revert", "CC": "sdcaller"}
@@ -529,6 +532,7 @@ func newWorld(k kase) *world {
 	}
 	for n := uint64(0); n < 8; n++ {
 		w.addU(fmt.Sprintf("create(A,%d)", n), createAddress(addrs["A"], n))
+		w.addU(fmt.Sprintf("create(D2,%d)", n), createAddress(addrs["D2"], n))
 	}
 	for _, c := range append([]string{"C0"}, helpers...) {
 		for n := uint64(0); n < 4; n++ {
@@ -563,6 +567,9 @@ func newWorld(k kase) *world {
 	db.SetBalance(addrs["A"], parseWei(k.SBal))
 	db.SetBalance(addrs["B"], parseWei(k.RBal))
 	db.SetBalance(addrs["D"], parseWei(k.RBal))
+	if k.DBal != "" {
+		db.SetBalance(addrs["D2"], parseWei(k.DBal))
+	}
 	for _, c := range helpers {
 		pl := helperProg[c]
 		db.SetCode(addrs[c], progCode(pl))
@@ -680,16 +687,18 @@ func runCase(k kase) (res result) {
 	top := core.GetBlockChain().TopBlock()
 	pre := w.observe()
 	pos := 0
-	var nonceA uint64
+	nonces := map[string]uint64{} // per sender: one per processed transaction
 
 	for _, b := range plan(k) {
 		var txs []*types.Transaction
 		for _, s := range b.specs {
-			txs = append(txs, buildTx(s, pos, nonceA))
-			pos++
-			if s.From == "" || s.From == "A" {
-				nonceA++
+			from := s.From
+			if from == "" {
+				from = "A"
 			}
+			txs = append(txs, buildTx(s, pos, nonces[from]))
+			pos++
+			nonces[from]++
 		}
 		hdr := &types.BlockHeader{Height: b.height, PreHash: top.Hash, CurTime: top.CurTime.Add(time.Duration(b.height) * time.Second),
 			Castor: castor, ProveValue: big.NewInt(0)}
@@ -1281,6 +1290,57 @@ func enumerate(e *enumerator) {
 			}
 		}
 	}
+	// ---- D: sub-intrinsic / exactly-intrinsic gas limits from a rich and from an almost empty sender,
+	// before and after every letter of the alphabet in the same block (the gas of a failed contract
+	// transaction is charged after the revert, possibly more than the sender still owns)
+	intrCall, _ := executor.IntrinsicGas(nil, false)
+	intrCreate, _ := executor.IntrinsicGas(initCode("plain"), true)
+	u := func(g uint64) string { return strconv.FormatUint(g, 10) }
+	type dustLetter struct {
+		spec txSpec
+		gas  []uint64
+	}
+	var dust []dustLetter
+	for _, from := range []string{"A", "D2"} {
+		dust = append(dust,
+			dustLetter{txSpec{Kind: "call", From: from, To: []string{"CP"}, Amt: []string{"0"}}, []uint64{1, 1000, intrCall - 1, intrCall}},
+			dustLetter{txSpec{Kind: "call", Eth: true, From: from, To: []string{"CP"}, Amt: []string{"0"}}, []uint64{1, 1000, intrCall - 1, intrCall}},
+			dustLetter{txSpec{Kind: "create", From: from, Init: "plain", Amt: []string{"0"}}, []uint64{1, 1000, intrCreate - 1, intrCreate}})
+	}
+	dustBals := []string{feeWei.String(), new(big.Int).Add(feeWei, big.NewInt(1)).String(), new(big.Int).Add(feeWei, big.NewInt(100000000000000)).String()}
+	for _, g := range []uint64{1, 1000, intrCall - 1, intrCall, intrCreate - 1, intrCreate} {
+		dustBals = append(dustBals, new(big.Int).Add(feeWei, new(big.Int).Mul(new(big.Int).SetUint64(g), gasWei)).String())
+	}
+	dustWorlds := []wcfg{worlds[0], worlds[3]}
+	if th {
+		dustWorlds = worlds
+	}
+	for _, wc := range dustWorlds {
+		for _, dl := range dust {
+			for _, g := range dl.gas {
+				d := dl.spec
+				d.Gas = u(g)
+				dbs := dustBals
+				if d.From == "A" {
+					dbs = dustBals[:1]
+				}
+				for _, db := range dbs {
+					mk := func(blocks [][]txSpec) {
+						e.do(kase{SBal: wc.sb, RBal: "0", CBal: wc.cb, DBal: db, Prog: wc.prog, Settle: true, Blocks: blocks})
+					}
+					mk([][]txSpec{{d}})
+					for _, t1 := range alpha {
+						mk([][]txSpec{{t1, d}})
+						mk([][]txSpec{{d, t1}})
+						if th {
+							mk([][]txSpec{{t1, d, d}})
+							mk([][]txSpec{{t1}, {d}})
+						}
+					}
+				}
+			}
+		}
+	}
 	tripleAlpha := alpha
 	if !th {
 		// quick: the complete cube over a 14-letter sub-alphabet
@@ -1360,7 +1420,8 @@ func main() {
 		Rule: "full cartesian products of {tx kind} x {amount string alphabet incl. zero, 19 decimals, negative, huge, spendable, spendable+1wei} x " +
 			"{sender/recipient/contract balance alphabet} x {gas limit alphabet} x {harness-assembled EVM programs: CALL/CREATE/SELFDESTRUCT/STAKE-family " +
 			"with value, followed by STOP/REVERT/INVALID/out-of-gas}, plus all pairs (and triples) over a reduced transaction alphabet in one block and in " +
-			"consecutive blocks; every case runs through core's block executor on a fresh head state. A case counts as non-trivial when at least one balance " +
+			"consecutive blocks, plus every alphabet letter before/after contract txs with gas limit {1,1000,intrinsic-1,intrinsic} from a rich and from a dust sender (balance alphabet around fee + gasLimit*price); " +
+			"every case runs through core's block executor on a fresh head state. A case counts as non-trivial when at least one balance " +
 			"slot of the universe changed; cases are distinct by construction (the enumeration never repeats an input).",
 		Assumptions: []string{
 			"harness EVM assembler, JSON builders and the decimal formatter are correct",
